@@ -414,7 +414,14 @@ pub fn gen_faults(rng: &mut Rng, stream: &Stream, n: usize, enabled: u32) -> Vec
                 let bare: Vec<usize> = stream.insts.iter().enumerate().filter(|(_, i)| inst_words(i) == 1).map(|(j, _)| j).collect();
                 let j = if !bare.is_empty() && rng.chance(1, 2) { *rng.pick(&bare) } else { j };
                 let ilen = stream.insts.get(j).map(inst_words).unwrap_or(1);
-                Fault::OperandExtra(j, rng.range(1, ilen as u64) as usize, rng.word())
+                // (a zero word is what padding looks like; all ones what an erased flash cell looks like)
+                let v = match rng.below(4) {
+                    0 => 0,
+                    1 => 0xFFFF_FFFF,
+                    _ => rng.word(),
+                };
+                let at = if rng.chance(1, 2) { ilen } else { rng.range(1, ilen as u64) as usize };
+                Fault::OperandExtra(j, at, v)
             }
             10 => {
                 let with_str: Vec<usize> = stream.insts.iter().enumerate().filter(|(_, i)| i.ops.iter().any(|o| matches!(o, MOp::S(_)))).map(|(j, _)| j).collect();
